@@ -295,15 +295,17 @@ func (f *FnEnc) setTaint(why string) {
 	f.e.abstracted[fnDisplayName(f.fn)+": "+why] = true
 }
 
-func (f *FnEnc) srcAt(pos token.Pos) string {
-	if !pos.IsValid() {
+func (f *FnEnc) srcAt(pos token.Pos) string { return srcTextAt(f.fn, pos) }
+
+func srcTextAt(fn *ssa.Function, pos token.Pos) string {
+	if !pos.IsValid() || fn == nil {
 		return ""
 	}
 	// find the smallest expression enclosing pos in the function's syntax
 	var best ast.Node
-	root := f.fn.Syntax()
-	if root == nil && f.fn.Parent() != nil {
-		root = f.fn.Parent().Syntax()
+	root := fn.Syntax()
+	for p := fn.Parent(); root == nil && p != nil; p = p.Parent() {
+		root = p.Syntax()
 	}
 	if root == nil {
 		return ""
@@ -680,6 +682,8 @@ type writeSet struct {
 	fresh  map[string]bool // written only inside objects the writer allocated itself
 	allBut map[string]bool // with all: components that are nevertheless kept ("everything except")
 	allPlain bool          // some source writes everything without exception
+	watch    map[string]bool // components whose (non-fresh) writers are to be listed
+	sites    *[]wsSite
 }
 
 func (f *FnEnc) loopWrites(li *loopInfo) writeSet {
